@@ -65,6 +65,23 @@ func CloneItems(items []reflect.Value) []reflect.Value {
 	return out
 }
 
+// DeepCloneItems copies items through their JSON text: nothing is shared with the originals.
+func DeepCloneItems(items []reflect.Value) []reflect.Value {
+	out := make([]reflect.Value, len(items))
+	for i, it := range items {
+		c := reflect.New(it.Type())
+		b, err := json.Marshal(it.Interface())
+		if err != nil {
+			panic(err)
+		}
+		if err := json.Unmarshal(b, c.Interface()); err != nil {
+			panic(err)
+		}
+		out[i] = c.Elem()
+	}
+	return out
+}
+
 // SelectorMatches: every non-nil scalar selector field equals the item's same-named field
 // (a nil item field never matches).
 func SelectorMatches(sel reflect.Value, item reflect.Value) bool {
